@@ -205,6 +205,9 @@ type InstrDataStore struct {
 	nextHandle    atomic.Int64
 	InflightReads atomic.Int64
 	MaxInflight   atomic.Int64
+	// ReadsHonorCtx makes read handles behave like object-store streams: once the context their
+	// OpenFile call received is done, Read fails with that context's error.
+	ReadsHonorCtx atomic.Bool
 	// ReadDelay makes every Read sleep (to overlap reads for the gauge).
 	ReadDelay func() time.Duration
 
@@ -343,6 +346,7 @@ type instrReader struct {
 	inUse  atomic.Int32
 	closed atomic.Bool
 	shadow int // plain: race-detector bait for concurrent use of one handle
+	ctx    context.Context
 }
 
 func (r *instrReader) enter(op string) {
@@ -381,6 +385,12 @@ func (r *instrReader) Read(p []byte) (int, error) {
 		}
 	}
 	if err := pre(nil, act); err != nil {
+		r.s.Log.end(seq, err, 0)
+		return 0, err
+	}
+	if r.s.ReadsHonorCtx.Load() && r.ctx != nil && r.ctx.Err() != nil {
+		// object-store style handle: a read under a context that is done fails with its error
+		err := r.ctx.Err()
 		r.s.Log.end(seq, err, 0)
 		return 0, err
 	}
@@ -470,7 +480,7 @@ func (s *InstrDataStore) OpenFile(ctx context.Context, ptr []byte) (io.ReadSeekC
 	s.Log.Calls[seq].Handle = id
 	s.Log.mu.Unlock()
 	s.Log.end(seq, nil, -1)
-	return &instrReader{s: s, inner: h, info: info}, nil
+	return &instrReader{s: s, inner: h, info: info, ctx: ctx}, nil
 }
 
 func (s *InstrDataStore) TombstoneFile(ctx context.Context, ptr []byte) error {
